@@ -760,7 +760,7 @@ def cmd_family(out_path, prop):
                     break
         elif prop == "C10" and kind == "bool":
             is_bool = fam[i]["ret"].kind == "prim" and fam[i]["ret"].a[0] == "bool"
-            looks = g.render_sig(fam[i]).rstrip().endswith("-> bool") or names.get(i, "").rstrip().endswith("-> bool")
+            looks = g.render_sig(fam[i]).rstrip().endswith("-> bool") or names.get(i, "").rstrip().endswith("-> bool") or g.render_sig(fam[i]).rstrip().endswith("bool")
             rec.eval(lambda: {"signature": g.render_sig(fam[i]), "form": ft, "accepted": ok})
             rec.cls("returns-bool" if is_bool else ("look-alike" if looks else "other"))
             m = None
